@@ -116,7 +116,11 @@ def check_sweep(run, case):
     run.case(case, len(order) >= 2 and (overloads >= 2 or
                                         mode != 'positional'),
              cls=['sweep', 'mode=' + mode])
-    if got != order and got != []:
+    # (the receiver of a method call is evaluated by the '.' operator before
+    # resolution starts, so a call that fails to resolve logs only that)
+    receiver_only = order[:1] if (d.method_only and order and
+                                  text.startswith('tick(')) else []
+    if got != order and got != [] and got != receiver_only:
         run.violate('eager-arguments-not-once-in-source-order', case,
                     '%s: probes in source order %r, evaluation log %r' % (
                         text, order, got),
@@ -262,7 +266,7 @@ def check_contract(run, case):
     common.add_tick(ctx, log)
 
     def echo(receiver, x):
-        return [receiver, x]
+        return (receiver, x)
     ctx.register_function(echo, name='echo', method=True)
     try:
         got = ('ok', _engine()(text).evaluate(context=ctx))
